@@ -268,7 +268,7 @@ class _ToInf(TokenConverter):
         float
             the float value for infinity.
         """
-        return float('inf')
+        return float('-inf') if str(tokenlist[0]).startswith('-') else float('inf')
 
 
 class InputFileGenerator(object):
